@@ -239,9 +239,9 @@ func init() {
 		Rule: "all evaluate-option lists of length 0..3 (quick) / 0..4 (thorough), in every order, over an 11-symbol alphabet {valid System value, valid element, valid collection, duplicate name, predefined context, predefined ucum, unsupported Go int, unsupported item first / last inside a collection, nil, OverrideTime} x 18 programs referencing each variable at the root, in a function argument, in where/select criteria and an iif branch, plus %context, %ucum, %unknown, delimited and string-named variables and an instrumented custom function; all compile-option lists of length 0..2 (quick) / 0..3 (thorough) over a 14-symbol alphabet {zero-arg fn, same name again, built-in name, 5 bad signatures, typed-arg fns, variadic, Permissive, WithExperimentalFuncs, Transform} x 19 call sites; outcomes compared with a reference fold of the contract written in the harness; non-trivial = distinct (option list, program, outcome)",
 		Assumptions: []string{"the reference fold (left-to-right map pre-seeded with context/ucum; which sentinel errors must be reported) is hand-written from the statement"},
 		Subs: func(tier string) []core.Sub {
-			eLen, cLen := 3, 2
+			eLen, cLen := 4, 3
 			if tier == "thorough" {
-				eLen, cLen = 4, 3
+				eLen, cLen = 5, 3
 			}
 			nE := c17SeqCount(len(eal), eLen)
 			nC := c17SeqCount(len(c17CAlphabet), cLen)
